@@ -6,6 +6,7 @@ import (
 
 	"golang.org/x/tools/go/ssa"
 
+	"xvc/load"
 	"xvc/q"
 )
 
@@ -38,3 +39,5 @@ func firstCallArg(fn *ssa.Function, spec string) ssa.Value {
 	}
 	return nil
 }
+
+func qual(fn *ssa.Function) string { return load.QualName(fn) }
